@@ -89,6 +89,7 @@ def required(tier):
              'same-names-other-definitions', 'species-outside-file-dimension']
     cl = ['A:missing-required@0-file-creation-pending',
           'A:in-memory-store-at-capacity@rejected-nothing-lost',
+          'A:larger-than-cache@rejected-nothing-lost',
           'A:rejected-first-add-of-other-identification-kind']
     for kd in kinds:
         cl += [f'A:{kd}@middle', f'A:{kd}@append-first', f'A:{kd}@append-later']
@@ -871,6 +872,45 @@ def memory_full(rng, workdir, rec, k):
         h.cleanup()
 
 
+def cache_refusals(rng, workdir, rec, k):
+    """Additions that pass every explicit validation but are refused by the trajectory cache
+    (larger than the whole cache), in a file-backed store: index, length and contents stay,
+    the next addition gets the next index, and a reopen shows only the successful ones."""
+    from vlib.storeops import StoreHistory
+
+    h = StoreHistory(rng, workdir, rec, identified=rng.random() < 0.5,
+                     cache_items=rng.choice([1, 2, 3]), uid_base=k * 1000 + 500)
+    try:
+        h.open_session('create_file')
+        for _ in range(rng.randint(1, 3)):
+            h.op_add()
+        before = rec.counters.get('oversize_refusals', 0)
+        for _ in range(rng.randint(1, 2)):
+            h.op_add_oversize()
+            h.check_all_reads()
+            h.op_add()
+        h.check_all_reads()
+        h.close('close')
+        h.open_session('append')
+        h.check_len()
+        h.op_add_oversize()
+        h.op_add()
+        h.check_all_reads()
+        h.close('close')
+        h.open_session('read')
+        h.check_len()
+        h.check_all_reads()
+        h.op_iter()
+        if h.identified:
+            for _ in range(3):
+                h.op_lookup(True)
+        h.close('close')
+        if rec.counters.get('oversize_refusals', 0) > before:
+            rec.cls('A:larger-than-cache@rejected-nothing-lost')
+    finally:
+        h.cleanup()
+
+
 def run_shard(spec, rec):
     from vlib.storeops import Mismatch
 
@@ -884,6 +924,7 @@ def run_shard(spec, rec):
                 if part == 'A':
                     s = add_faults(rng, workdir, rec, k)
                     memory_full(random.Random(f"{spec['seed']}-{k}-mem"), workdir, rec, k)
+                    cache_refusals(random.Random(f"{spec['seed']}-{k}-big"), workdir, rec, k)
                 elif part == 'B':
                     s = refused_merges(rng, workdir, rec, k)
                 else:
